@@ -678,7 +678,7 @@ def r5(report, db, cg, F, ref):
                         ast.unparse(arg), iv, tname, lo, hi))
     report.note('fixed-width integer send sites', n)
     report.note('of which bounded by their own operators', nb)
-    report.floor('fixed-width integer send sites', n, 20)
+    report.floor('fixed-width integer send sites', n, 12)
     report.floor('bounded derived arguments', nb, 1)
 
 
